@@ -314,6 +314,7 @@ int record_main(int argc, char** argv) {
   vf::Trace tr(argv[1]);
   vf::crash_ctx().out = tr.f;
   vf::install_crash_handlers();
+  protect_process();
   for (long k = 0; k < n; ++k) record_event(g, tr, kind, limit);
   std::printf("{\"events\":%ld}\n", tr.n);
   return 0;
